@@ -62,6 +62,14 @@ def monitor_c15(sc):
         for src, n in c.items():
             if n > lim + 1:
                 hits.append(dict(what="more than limit+1 messages buffered for one sender and topic", topic=p["topic"], src=src, n=n))
+    # counted on the buffers themselves, not on the bookkeeping that is meant to bound them
+    per_src = collections.Counter()
+    for p in sc["fin_pending"]:
+        for src in set(m["src"] for m in p["msgs"]):
+            per_src[src] += 1
+    for src, n in per_src.items():
+        if n > maxt + 1:
+            hits.append(dict(what="messages of one sender are buffered for more than max+1 topics at once", src=src, n=n, max_topics=maxt))
     for src, ts in sc["fin_inflight"].items():
         if len(ts) > maxt + 1:
             hits.append(dict(what="more than max+1 buffered topics for one sender", src=src, n=len(ts)))
